@@ -38,6 +38,10 @@ CHECKS["C04"] = dict(level="fault_enumeration", ref="DESIGN.md §5 C04",
    technique="fault enumeration on valid generated records: single payload byte flip/insert/delete at stratified (quick) or all (thorough) positions, truncation/extension, chain-element removal, foreign/fork substitution, duplicated container, manifest edits; two-directional oracle (faulted sets must raise, untouched set / every chain prefix / MF-as-plain must open and show the reference tree)",
    text="One fault at a time on private copies of records built from generated histories; thorough enumerates every payload byte position of every container of the generated records. Acceptance side prevents a vacuous 'everything raises'. Single corruptions only.",
    note=TB + "; libhdf5 is trusted not to crash on corrupted payloads (a worker crash is reported as harness error)")
+CHECKS["C11"] = dict(level="fault_enumeration", ref="DESIGN.md §5 C11",
+   technique="crash-point enumeration: the patching program runs in forked children that os._exit at the n-th I/O/API event (all events in thorough), exhaustive torn prefixes of the final user-block write, and real SIGKILLs judged via an fsync'd progress log; oracle on the directory left behind (byte digests, committed subset vs reference tree, tri-state outcome of the full set, r+ recovery)",
+   text="Deterministic enumeration of crash points at every hooked event boundary of generated patching scenarios (quick: 40 per scenario incl. all inside commit_patch; thorough: all), every torn-prefix length of the committing header write, plus sparse real kills. Crash instants inside one libhdf5 call and power-loss reordering are out of reach.",
+   note=TB + "; os._exit at an event boundary is taken as a faithful model of process death at that point")
 NOT_YET = {}
 def main():
     props = [json.loads(l) for l in open(os.path.join(HERE, "properties.jsonl"))]
